@@ -911,3 +911,22 @@ Lemma grant_run cfg : NoDup (cfg_nodes cfg) -> forall evs c t m rt,
   votes s t m = None /\ votes (deliver_req cfg s c t m) t m = Some c /\ rt = t /\
   term (loc s m) < t /\ term (loc (deliver_req cfg s c t m) m) = t.
 Proof. intros ND evs c t m rt s. apply grant_spec. now apply inv_run. Qed.
+
+(* FINDING 3: a follower that the leader has dropped from the active list twice
+   crashes on the health check it receives when it is reachable again:
+   rehashSkipped is still set from the first time (it is never cleared by a
+   matching check), so the list without the receiver is adopted at once and
+   gcProxySessions dereferences c.nodes[self] = nil *)
+Definition health_never_panics_statement (cfg : config) : Prop :=
+  forall evs idx, health_panics (run cfg evs) idx = false.
+
+Definition evs_flap : list event :=
+  [Tick 0 [] []; DeliverReq 0 1 1; DeliverRep 0 1 1;   (* 0 leads term 1 *)
+   Tick 0 [] [1];                                      (* the check of 2 fails: 2 dropped *)
+   Tick 0 [2] [1; 2]; DeliverHealth 0;                 (* 2 is back: one check with the list {0,1}: flag raised *)
+   Tick 0 [2] [1; 2]; DeliverHealth 0;                 (* list {0,1,2} again: matches, flag stays *)
+   Tick 0 [] [1];                                      (* 2 dropped a second time *)
+   Tick 0 [2] [1; 2]].                                 (* back again: the check carries {0,1} *)
+
+Lemma health_never_panics_refuted : ~ health_never_panics_statement cfg3.
+Proof. intros H. specialize (H evs_flap 0). vm_compute in H. discriminate H. Qed.
